@@ -18,7 +18,7 @@
 (* Memory is a partial function from cell start address to [size, value]; cells never overlap.              *)
 (* Only the machine semantics decides: any correct order of saves, any correct choice of instructions or    *)
 (* of offsets is accepted.                                                                                   *)
-EXTENDS Integers, Sequences, FiniteSets, TLC
+EXTENDS Integers, Sequences, FiniteSets, TLC, FrameSetters
 
 VARIABLES
   esp,    \* entry stack pointer (concrete integer, a nondeterministic initial choice among the ABI's residues)
@@ -46,9 +46,6 @@ FullW == 64
 JunkR    == [v |-> Junk, w |-> 0]
 IntR(n)  == [v |-> IntV(n), w |-> 8]
 
-Min2(a, b) == IF a < b THEN a ELSE b
-Max2(a, b) == IF a > b THEN a ELSE b
-ToSet(s) == {s[j] : j \in 1..Len(s)}
 IsPow2(n) == n \in {1, 2, 4, 8, 16, 32, 64, 128, 256, 512, 1024, 2048, 4096}
 
 ------------------------------------------------------------------------------
@@ -100,24 +97,8 @@ CalleePops(O) == LET c == O.cfg IN
   IsX86(c) /\ (c.cc \in {"stdcall", "fastcall", "vectorcall"} \/ (c.cc = "thiscall" /\ c.env = "x86-win"))
 PopBytes(O) == IF CalleePops(O) THEN O.fd.argstack ELSE 0
 
-(* THE CONTRACT OF THE SETTERS (func.h documentation): set_* assigns, update_* "updates to the greater value", *)
-(* add_dirty_regs adds, set_dirty_regs assigns, set_/reset_ attribute pairs switch the attribute.  The order   *)
-(* of calls to DIFFERENT setters is irrelevant: the finalized frame must honour the last/max value of each.   *)
-Eff0 == [ls |-> 0, la |-> 0, cs |-> 0, ca |-> 0, fp |-> 0, calls |-> 0, d |-> <<{}, {}, {}, {}>>]
-ApplyOp(e, o) ==
-  LET n == o.op IN
-  IF n = "set_ls" THEN [e EXCEPT !.ls = o.a] ELSE IF n = "update_ls" THEN [e EXCEPT !.ls = Max2(@, o.a)]
-  ELSE IF n = "set_la" THEN [e EXCEPT !.la = o.a] ELSE IF n = "update_la" THEN [e EXCEPT !.la = Max2(@, o.a)]
-  ELSE IF n = "set_cs" THEN [e EXCEPT !.cs = o.a] ELSE IF n = "update_cs" THEN [e EXCEPT !.cs = Max2(@, o.a)]
-  ELSE IF n = "set_ca" THEN [e EXCEPT !.ca = o.a] ELSE IF n = "update_ca" THEN [e EXCEPT !.ca = Max2(@, o.a)]
-  ELSE IF n = "add_dirty" THEN [e EXCEPT !.d[o.g + 1] = @ \cup ToSet(o.ids)]
-  ELSE IF n = "set_dirty" THEN [e EXCEPT !.d[o.g + 1] = ToSet(o.ids)]
-  ELSE IF n = "set_fp" THEN [e EXCEPT !.fp = 1] ELSE IF n = "reset_fp" THEN [e EXCEPT !.fp = 0]
-  ELSE IF n = "set_calls" THEN [e EXCEPT !.calls = 1] ELSE IF n = "reset_calls" THEN [e EXCEPT !.calls = 0]
-  ELSE e             \* AVX/MMX/IBT attributes and the SA register select instructions, they promise nothing to the body
-RECURSIVE FoldOps(_, _, _)
-FoldOps(ops, n, e) == IF n > Len(ops) THEN e ELSE FoldOps(ops, n + 1, ApplyOp(e, ops[n]))
-Eff(O) == FoldOps(O.cfg.ops, 1, Eff0)
+(* the contract of the setters (set_* assigns, update_* takes the maximum, ...) is FrameSetters!EffOf *)
+Eff(O) == EffOf(O.cfg.ops)
 
 (* what the body was promised *)
 Promised(O) == LET e == Eff(O) IN Max2(NatAlign(O), Max2(e.la, e.ca))
